@@ -547,7 +547,7 @@ pub fn run(tier: &str) -> i32 {
 
     // ---------- E3 bodies ----------
     o.cov("exhaustive", json!(exhaustive));
-    crate::e3::fold_e3(&mut o, "C17", tier, &crate::props::c17e3::bodies(tier), "e3_");
+    crate::e3::fold_e3(&mut o, "C17", tier, &crate::e3::with_variants(crate::props::c17e3::bodies(tier), tier), "e3_");
 
     let tally = tally.into_inner().unwrap();
     o.cov_add("states", programs + a2 + mdone as u64);
@@ -587,7 +587,7 @@ pub fn replay(v: &serde_json::Value) -> i32 {
         let tier = v["variant"]["tier"].as_str().unwrap_or("quick");
         let bi = v["variant"]["body_index"].as_u64().unwrap_or(0) as usize;
         let choices: Vec<usize> = v["variant"]["choices"].as_array().map(|a| a.iter().filter_map(|c| c.as_u64().map(|c| c as usize)).collect()).unwrap_or_default();
-        return match crate::props::c17e3::bodies(tier).get(bi) {
+        return match crate::e3::with_variants(crate::props::c17e3::bodies(tier), tier).get(bi) {
             Some(b) => crate::e3::replay_schedule(&*b.body, &choices),
             None => 2,
         };
